@@ -101,6 +101,22 @@ Theorem C19_changes_reported :
 Proof. exact changes_reported. Qed.
 Print Assumptions C19_changes_reported.
 
+(* DoS policies and DoS log configurations have no getter of their own (their validity shows in the
+   answers for the protected resources naming them, covered above); their own events always name
+   them in the change list, with a problem when they are invalid. *)
+Theorem C19_dos_policy_events_reported :
+  forall (st : state) (k : string),
+    (forall o, let out := snd (step st (EvDosPolicy k o)) in
+               In (chg (op_for (dp_valid o)) KDosPolicy k) (o_changes out) /\
+               (dp_valid o = false -> In (prob KDosPolicy k PcValidation) (o_problems out))) /\
+    (forall o, let out := snd (step st (EvDosLogConf k o)) in
+               In (chg (op_for (dl_valid o)) KDosLogConf k) (o_changes out) /\
+               (dl_valid o = false -> In (prob KDosLogConf k PcValidation) (o_problems out))) /\
+    (stored st KDosPolicy k = true -> In (chg OpDelete KDosPolicy k) (o_changes (snd (step st (EvDelDosPolicy k))))) /\
+    (stored st KDosLogConf k = true -> In (chg OpDelete KDosLogConf k) (o_changes (snd (step st (EvDelDosLogConf k))))).
+Proof. exact dos_policy_events_reported. Qed.
+Print Assumptions C19_dos_policy_events_reported.
+
 (* Signatures are reported through UserSigChange.UserSigs, the complete list of signatures in
    force after the operation.  FULL STATEMENT (false, see C19_usersig_report_refuted): for every
    signature operation.  Proved: for every signature operation except DeleteUserSig of a key that
